@@ -1365,6 +1365,16 @@ pub fn run_case(id: u64, c: &Case, hist: &mut Hist) -> CaseResult {
                     "round trip of a well-formed message".into(),
                     format!("decode(encode({})) = {:?}", coq_msg(m), r),
                 ));
+                // C11: a responder is judged by what its NODES packets hold; a packet that is not even
+                // decoded because of the total it claims is never validated (and its sender never banned)
+                if let Message::Response(Response { body: ResponseBody::Nodes { total, .. }, .. }) = m {
+                    if r.is_err() {
+                        failures.push((
+                            "@C11 a well-formed NODES packet is rejected by the decoder".into(),
+                            format!("decode(encode({})) = {:?}: a NODES packet claiming total {} is dropped before its records are looked at - its sender escapes validation and the ban", coq_msg(m), r, total),
+                        ));
+                    }
+                }
             }
         }
         (Input::Msg(m), Expect::RoundTripV4, Ok(r)) => {
@@ -1526,12 +1536,14 @@ pub fn main(args: &[String]) {
             ]));
         }
         for (what, desc) in &r.failures {
-            let sig = format!("C06:{}", what);
+            // (a failure description may name another property than C06: "@Cxx text")
+            let (prop, what) = if what.starts_with('@') { (what[1..4].to_string(), what[5..].to_string()) } else { ("C06".to_string(), what.clone()) };
+            let sig = format!("{}:{}", prop, what);
             if seen_sig.insert(sig.clone()) || only.is_some() {
-                let file = o.out.join(format!("failure_C06_{}.json", idx));
+                let file = o.out.join(format!("failure_{}_{}.json", prop, idx));
                 let j = J::obj(vec![
                     ("component", J::s("rpcc")),
-                    ("property", J::s("C06")),
+                    ("property", J::s(prop.clone())),
                     ("seed", J::I(o.seed as i64)),
                     ("case", J::I(idx as i64)),
                     ("thorough", J::B(o.thorough)),
